@@ -7,3 +7,4 @@ open PgmVerif
 #print axioms PgmVerif.C12_adjacent_never_separated
 #print axioms PgmVerif.C12_parents_separate
 #print axioms PgmVerif.C12_nonadjacent_separable
+#print axioms PgmVerif.C12_toDag_acyclic
